@@ -151,12 +151,56 @@ func edgeTrace(c *an.Ctx) *edgeTraceResult {
 						if b, ok := a.Type().Underlying().(*types.Basic); ok && b.Kind() == types.String {
 							start = classify(a, st)
 						}
+						inIteration := func(in ssa.Instruction) bool {
+							// allocated during this iteration: inside the loop, or in a helper inlined from it
+							return in.Parent() != add || res.loop.Blocks[in.Block()]
+						}
 						if _, isMap := a.Type().Underlying().(*types.Map); isMap {
 							marks = "shared"
-							if mm, ok := st.Root(a).(*ssa.MakeMap); ok {
-								// allocated during this iteration: inside the loop, or in a helper inlined from it
-								if mm.Parent() != add || res.loop.Blocks[mm.Block()] {
-									marks = "fresh"
+							if mm, ok := st.Root(a).(*ssa.MakeMap); ok && inIteration(mm) {
+								marks = "fresh"
+							}
+						}
+						// a search object that carries the mark set in a field
+						if ptr, isPtr := a.Type().Underlying().(*types.Pointer); isPtr {
+							if stt, isStruct := ptr.Elem().Underlying().(*types.Struct); isStruct {
+								hasMap := false
+								for i := 0; i < stt.NumFields(); i++ {
+									if _, ok := stt.Field(i).Type().Underlying().(*types.Map); ok {
+										hasMap = true
+									}
+								}
+								if hasMap && marks == "none" {
+									marks = "shared"
+									if al, ok := st.Root(a).(*ssa.Alloc); ok && inIteration(al) && al.Referrers() != nil {
+										freshMaps, otherMaps := 0, 0
+										for _, r := range *al.Referrers() {
+											fa, ok := r.(*ssa.FieldAddr)
+											if !ok || fa.Referrers() == nil {
+												continue
+											}
+											if _, isMapField := an.Deref(fa.Type()).Underlying().(*types.Map); !isMapField {
+												continue
+											}
+											for _, rr := range *fa.Referrers() {
+												sto, ok := rr.(*ssa.Store)
+												if !ok || sto.Addr != ssa.Value(fa) {
+													continue
+												}
+												if mm, ok := an.Resolve(sto.Val).(*ssa.MakeMap); ok && inIteration(mm) {
+													freshMaps++
+												} else {
+													otherMaps++
+												}
+											}
+										}
+										// the adjacency map may be handed on; what matters is that some map of the object is new
+										// and that the detector's marks are written into that one (checked by C05.3)
+										if freshMaps > 0 {
+											marks = "fresh"
+										}
+										_ = otherMaps
+									}
 								}
 							}
 						}
